@@ -133,6 +133,7 @@ def run(ctx, report):
                          fn=f.path, sp=cl[0][1] if cl else f.blocks[leaf].term.sp, config=cfg)
         # ---- R6 id == v4
         id_check(ctx, report, m, f)
+        rejections_rule(ctx, report, m, f)
         # ---- R7 public key of the record's type
         good = False
         for b, t in f.calls():
@@ -390,6 +391,103 @@ def ordering(ctx, report, m, f):
                             good = True
     report.check("KEYS", "prev-updated", good, "the previous key is set to the current key in every iteration",
                  "the key remembered for the ordering check is not updated to the current key on every iteration", fn=f.path, sp=t.sp, config=cfg)
+
+
+def rejections_rule(ctx, report, m, f):
+    """REJECT: the decoder refuses nothing the specification accepts.  Every
+    explicit `Err(..)` exit of decode (its private helpers spliced in) is taken
+    only under one of the conditions EIP-778 / the statement names: the item is
+    larger than 300 bytes; the payload is exhausted where an item must follow;
+    the keys are out of order (the comparison KEYS decides); an id other than
+    v4; verify() is false; or a library/inner call has failed (the Err edge of a
+    Result, or an error converted from it).  Anything else - including one of
+    these tests with the wrong polarity - can refuse a valid record."""
+    import guards
+    from rules.c01 import ret_exprs
+    from rules.typestate import const_int
+    cfg = ctx.config
+    an = m.an
+    try:
+        gs, _outer = c09.decoder_item_guards(ctx, f)
+    except Exception:
+        gs = []
+    gnodes = {n: labs for (n, labs, form, gsp) in gs if form in ("consumed", "whole-buffer", "header+payload")}
+
+    def alts(e, depth=0):
+        e = strip(e)
+        if e.k == "phi" and depth < 8:
+            for a in e.a[0]:
+                yield from alts(a, depth + 1)
+        else:
+            yield e
+
+    def has_call(e):
+        return any(x.k == "call" and (x.a[0].local or x.a[0].krate not in ("core", "std", "alloc") or x.a[0].name in ("decode", "decode_bytes", "try_from", "try_into", "from_utf8", "parse")) for x in e.walk())
+    n_explicit = 0
+    bad = []
+    for bb, idx, e, node in ret_exprs(an):
+        for es in alts(e):
+            if not (es.k == "agg" and es.a[0].endswith("Result::Err")):
+                continue
+            n_explicit += 1
+            why_ok = None
+            if has_call(es):
+                why_ok = "converted from a failed call"
+            for d, cond, allowed, alll in an.constraints_at(bb):
+                if why_ok:
+                    break
+                if d in gnodes:
+                    aset = []
+                    for lab in allowed:
+                        aset = guards._norm(aset + gnodes[d].get(lab, [(0, guards.INF)]))
+                    if not any(lo <= 300 and hi >= 0 and max(lo, 0) <= min(hi, 300) for lo, hi in aset):
+                        why_ok = "size"
+                    continue
+                c = strip(cond)
+                if c.k == "discr":
+                    if allowed and allowed <= {"Err", "Break"} and has_call(c.a[0]):
+                        why_ok = "failed call"
+                    continue
+                neg = False
+                c0 = c
+                while c0.k == "unop" and c0.a[0] == "Not":
+                    neg = not neg
+                    c0 = strip(c0.a[1])
+                true_edge = ("otherwise" in allowed or 1 in allowed) and 0 not in allowed
+                false_edge = allowed == {0}
+                holds = (true_edge and not neg) or (false_edge and neg)
+                fails = (false_edge and not neg) or (true_edge and neg)
+                if c0.k != "call":
+                    r = guards.constraint_set(cond, allowed, const_int, strip)
+                    if r is not None:
+                        qs = strip(r[0])
+                        if qs.k == "call" and qs.a[0].name == "len" and qs.a[1] and is_payload(m, qs.a[1][0]) and r[1] == [(0, 0)]:
+                            why_ok = "payload exhausted"
+                    continue
+                nm = c0.a[0].name
+                if nm == "is_empty" and c0.a[1] and is_payload(m, c0.a[1][0]):
+                    if holds:
+                        why_ok = "payload exhausted"
+                elif nm in CMP_TRUE and len(c0.a[1]) == 2 and (m.is_key(c0.a[1][0]) != m.is_key(c0.a[1][1])) and not any(strip(x).k == "const" for x in c0.a[1]):
+                    why_ok = "key order"  # exactness of the continuing set is rule KEYS
+                elif nm in ("eq", "ne") and len(c0.a[1]) == 2 and any(strip(x).k == "const" and strip(x).a[0] in (b"v4", "v4") for x in c0.a[1]):
+                    if (nm == "eq" and fails) or (nm == "ne" and holds):
+                        why_ok = "id is not v4"
+                elif nm == "verify" and c0.a[0].local:
+                    if fails:
+                        why_ok = "signature gate"
+                else:
+                    r = guards.constraint_set(cond, allowed, const_int, strip)
+                    if r is not None:
+                        qs = strip(r[0])
+                        if qs.k == "call" and qs.a[0].name == "len" and qs.a[1] and is_payload(m, qs.a[1][0]) and r[1] == [(0, 0)]:
+                            why_ok = "payload exhausted"
+            if why_ok is None:
+                bad.append(getattr(node, "sp", None) or "bb%d" % bb)
+    report.check("REJECT", "decode/only-justified", not bad,
+                 "each of decode's %d explicit rejections is taken only when the item is too large, the payload is exhausted, the keys are out of order, the id is not v4, the signature does not verify, or a library call failed" % n_explicit,
+                 "decode has a rejection that none of the specification's conditions justifies (or one of them with the polarity reversed): valid records can be refused (at %s)" % sorted(set(map(str, bad))),
+                 fn=f.path, sp=f.span, config=cfg)
 
 
 def id_check(ctx, report, m, f):
